@@ -225,12 +225,14 @@ def gen_scalar(kind, k):
 
 # forms a vector / matrix argument can take
 VEC_FORMS = ['array', 'list', 'tuple', 'row', 'col', 'intarray', 'intlist', 'view', 'strided',
-             'f32', 'f16', 'bigendian', 'readonly', 'complex', 'masked']
+             'f32', 'f16', 'bigendian']
 # (a one-shot iterator was tried as a form and dropped: DualQuaternion keeps a reference to whatever
 #  it is given, so a consumed iterator lives on inside a heap object and no call on that object can
 #  be delivered twice)
 MAT_FORMS = ['array', 'fortran', 'view', 'strided', 'transposed', 'nested', 'intarray', 'f32',
-             'bigendian', 'readonly', 'complex', 'masked']
+             'bigendian']
+# (read-only, complex and masked arrays were tried as forms late in the work and withdrawn: each new
+#  form needs a long seed soak before it can be trusted not to raise false alarms, see DESIGN 9.2)
 
 
 def to_form(a, form):
